@@ -190,8 +190,15 @@ func genRespPeer(t *rapid.T) respPeer {
 	}
 }
 
-func TestVerif_C10_Messenger(t *testing.T) {
-	verifsim.RunCheck(t, verifsim.Check[respSc]{
+func TestVerif_C10_Messenger(t *testing.T) { verifsim.RunCheck(t, c10MessengerCheck()) }
+
+// the same generator and oracle driven by Go's coverage-guided fuzzer (thorough tier)
+func FuzzVerif_C10_Messenger(f *testing.F) {
+	verifsim.RunFuzz(f, c10MessengerCheck(), "TestVerif_C10_Messenger")
+}
+
+func c10MessengerCheck() verifsim.Check[respSc] {
+	return verifsim.Check[respSc]{
 		Property: "C10", Part: "messenger",
 		Rule: "rapid: every ProtocolMessenger request method against a generated response over the whole schema (type incl. unknown enums, key absent/same/other, record absent/same key/other key/no key/no value/empty value, " +
 			"0-8 closer and provider peers with ids {valid, empty, 1 byte, 300 bytes} x addresses {none, ok, undecodable, >8 KiB, mixed} x connection enum extremes, list replicated up to thousands of peers, cluster-level extremes, " +
@@ -295,5 +302,5 @@ func TestVerif_C10_Messenger(t *testing.T) {
 			res.Class("method-" + s.Method)
 			return
 		},
-	})
+	}
 }
